@@ -87,7 +87,8 @@ Init == /\ \E ek \in ElemKinds : \E sq \in Colls(ek, MaxN) : \E s2 \in Seconds(e
               \/ \E mk \in (IF ek = "str" THEN MetricKinds ELSE MetricKinds \cap {"default"}) :
                     \E e \in EdgeVecs : \E np \in NormPseudo : \E ms \in MaxSeqs :
                        inp = Rec(ek, sq, s2, mk, e, np[1], np[2], ms)
-              \/ ("default" \in MetricKinds /\ inp = Rec(ek, sq, s2, "default", <<>>, TRUE, <<0, 1>>, 0))      \* bins = 0
+              \* bins = 0 (whatever maxseqs says: the short-circuit comes before any down-sampling, the arguments themselves are counted)
+              \/ ("default" \in MetricKinds /\ \E ms \in MaxSeqs : inp = Rec(ek, sq, s2, "default", <<>>, TRUE, <<0, 1>>, ms))
         /\ sub = <<>> /\ sub2 = <<>> /\ metric = "" /\ dists = <<>> /\ hist = <<>> /\ res = <<>> /\ step = "start"
 
 \* bins = 0: exact coincidence probability of the same arguments
